@@ -48,7 +48,8 @@ def main(argv=None):
         return 2
     mod = importlib.import_module(f'vf.checks.{prop.lower()}')
 
-    workroot = os.path.join(env.WORK, prop + ('_replay' if a.replay else ''))
+    # one scratch directory per invocation: two runs of the same check (a sweep and a self-test) must not share it
+    workroot = os.path.join(env.WORK, f"{prop}{'_replay' if a.replay else ''}_{os.getpid()}")
     shutil.rmtree(workroot, ignore_errors=True)
     os.makedirs(workroot, exist_ok=True)
 
